@@ -27,7 +27,7 @@ WHAT = {
 
 def classify(cfg, f):
     tag = cfg["tag"]
-    m = re.match(r"F1d\((-?\d+),(-?\d+)\)/(.*)", tag)
+    m = re.match(r"F1[a-zA-Z0-9]*\((-?\d+),(-?\d+)\)/(.*)", tag)
     if f["kind"] == "compile-exception":
         return "F13" if f["msg"].startswith("KeyError: 'W") else None
     if f["kind"] == "exception":
